@@ -15,6 +15,58 @@ def deepDoc (kind : String) (depth : Nat) (closed : Bool) : List Char :=
     rep depth ['['] ++ (if closed then rep depth [']'] else [])
   else if kind = "obj" then
     rep depth "{\"k\":".toList ++ (if closed then '0' :: rep depth ['}'] else [])
+  else if kind = "ws" then Id.run do
+    let w : List Char := (List.range depth).map fun i => [' ', '\n', '\t', '\r'][i % 4]!
+    let mut out : Array Char := #[]
+    for part in ["", "[", "1", ",", "{", "\"k\"", ":", "[]", ",", "\"l\"", ":", "\"s\""] do
+      for c in part.toList do out := out.push c
+      for c in w do out := out.push c
+    if closed then
+      out := out.push '}'
+      for c in w do out := out.push c
+      out := out.push ']'
+      for c in w do out := out.push c
+    return out.toList
+  else if kind = "pretty" then Id.run do
+    let d := Nat.sqrt depth + 1
+    let mut out : Array Char := #[]
+    for i in [0:d] do
+      if i % 2 = 0 then out := out.push '['
+      else
+        for c in "{\"a\": 1,\n".toList do out := out.push c
+        for _ in [0:i] do out := out.push ' '
+        for c in "\"b\":".toList do out := out.push c
+      out := out.push '\n'
+      for _ in [0:i+1] do out := out.push ' '
+    for c in "null".toList do out := out.push c
+    if closed then
+      for j in [0:d] do
+        let i := d - 1 - j
+        out := out.push '\n'
+        for _ in [0:i] do out := out.push ' '
+        out := out.push (if i % 2 = 0 then ']' else '}')
+    return out.toList
+  else if kind = "long" then Id.run do
+    let mut out : Array Char := #['[', '"']
+    for i in [0:depth] do
+      let part := if i % 7 = 0 then "\\n" else if i % 7 = 1 then "\\u00e9" else if i % 7 = 2 then "\\ud83d\\ude00"
+        else if i % 7 = 3 then "é" else "a"
+      for c in part.toList do out := out.push c
+    for c in "\",-".toList do out := out.push c
+    for i in [0:depth] do out := out.push (Char.ofNat (49 + i % 9))
+    out := out.push '.'
+    for _ in [0:depth] do out := out.push '0'
+    for c in "e+".toList do out := out.push c
+    for _ in [0:depth] do out := out.push '7'
+    for c in ",{".toList do out := out.push c
+    for i in [0:depth] do
+      if i > 0 then out := out.push ','
+      for c in (if i % 2 = 0 then "\"k\":[]" else "\"k\":0").toList do out := out.push c
+    out := out.push '}'
+    for _ in [0:depth] do
+      for c in ",null".toList do out := out.push c
+    if closed then out := out.push ']'
+    return out.toList
   else Id.run do
     let mut out : Array Char := #[]
     for i in [0:depth] do
@@ -33,6 +85,9 @@ def c03Cmd (args : List String) : String :=
   | ["deep", kind, d, closed] =>
     match d.toNat? with
     | some d =>
+      -- the model's string and number buffers are lists extended at the end (quadratic): beyond
+      -- this size the long-token family is checked by the direct oracle only
+      if kind = "long" && d > 20000 then "skip" else
       match run ⟨false, false⟩ [] none { rest := deepDoc kind d (closed = "1"), bad := false, pos := 0, cm := #[] } with
       | .ok (_, s) => s!"ok {s.cm.size}"
       | .error e => showErr false e
